@@ -88,19 +88,22 @@ class TLCResult:
         self.deadlock = False
 
 
+import threading
+_TLC_LOCK = threading.Lock()
 _JSONLINE = re.compile(r'^"(\{|\[)')
 
 
 def run_tlc(ctx, module, cfg, workers=None, simulate=None, depth=None, timeout=600, files=None, deque=False,
-            extra=None, want_lines=True, copy=None, xss="64m", heap=None, line_cb=None, coverage=False):
+            extra=None, want_lines=True, copy=None, xss="64m", heap=None, line_cb=None, coverage=False, cfg_dir=None):
     """Run TLC on spec/<module>.tla with spec/<cfg> in a scratch directory.  `copy`: extra files (abs paths)
     to place next to the spec (trace files).  Returns TLCResult; raises Broken on timeouts/crashes."""
-    ctx.ntlc += 1
-    d = os.path.join(ctx.work, "tlc%d" % ctx.ntlc)
+    with _TLC_LOCK:
+        ctx.ntlc += 1
+        d = os.path.join(ctx.work, "tlc%d" % ctx.ntlc)
     os.makedirs(d)
     for f in glob.glob(os.path.join(SPEC, "*.tla")):
         shutil.copy(f, d)
-    shutil.copy(os.path.join(SPEC, cfg), os.path.join(d, cfg))
+    shutil.copy(os.path.join(cfg_dir or SPEC, cfg), os.path.join(d, cfg))
     for f in (copy or []):
         shutil.copy(f, d)
     tmp = os.path.join(d, "tmp")
